@@ -36,8 +36,18 @@ MANIFEST_ENTRY = {
         "document comparison. Trusted: Lean kernel, harness incl. its XML-patch applier, driver, shims."),
     "technique": "Lean 4 proof (slice characterisation, strict monotonicity of starts, loop cover/minimality lemmas) + model/implementation correspondence",
 }
-PROP_FILES = ["DashLive/Props/C09.lean"]
-LEAN_TARGETS = ["DashLive.Props.C09"]
+PROP_FILES = ["DashLive/Props/C09.lean", "DashLive/Props/GenTie.lean"]
+LEAN_TARGETS = ["DashLive.Props.C09", "DashLive.Props.GenTie"]
+
+
+def _gen_arith():
+    """Gen/Arith.lean (incl. the `while` loop of get_segment_index) is translated from /repo's source
+    text; Props/GenTie.lean proves it equal to the model (`tie_getSegmentIndex`)"""
+    import gen_arith
+    gen_arith.main()
+
+
+GENERATORS = [_gen_arith]
 TRUSTED = ["harness/segwalk.py MPD reader, the minimal XML-patch applier in harness/props/c09.py, /verif/shims"]
 ASSUMPTIONS = [
     "T1 is at least depth + 2 s after availabilityStartTime (constant clamped depth)",
